@@ -255,7 +255,13 @@ func (w *world) main() {
 	ch := simrt.Choose
 	// one configuration in twelve has 34 lanes, one in twenty-four 70: more than a machine
 	// word of either size has bits (whatever is kept per lane in a bit set or a small table)
-	w.lanes = []int{1, 2, 3, 4, 6, 1, 2, 3, 4, 6, 5, 34, 1, 2, 3, 4, 6, 1, 2, 3, 4, 6, 34, 70}[ch("cfg.lanes", 24)]
+	w.lanes = []int{1, 2, 3, 4, 6, 5}[ch("cfg.lanes", 6)]
+	switch wide := ch("cfg.wide", 24*kit.Rarity()); wide {
+	case 0, 1:
+		w.lanes = 34
+	case 2:
+		w.lanes = 70
+	}
 	w.qsize = []int{0, 1, 2, 3, 5}[ch("cfg.qsize", 5)]
 	// 0 and negative: a push that cannot wait at all (time.After fires at once)
 	w.timeout = []time.Duration{time.Millisecond, 10 * time.Millisecond, time.Second, 0, -time.Second}[ch("cfg.timeout", 5)]
@@ -267,10 +273,10 @@ func (w *world) main() {
 	// worker before anything else happens - whatever a worker does every so many
 	// tasks (re-spawn, reset, sample) happens here
 	longHistory := 0
-	switch h := ch("cfg.long_history", 3000); {
-	case h >= 2975 && h < 2999:
+	switch h := ch("cfg.long_history", 3000*kit.Rarity()); {
+	case h >= 1 && h < 25:
 		longHistory = 4200
-	case h == 2999:
+	case h == 25:
 		longHistory = 66000
 	}
 	if longHistory > 0 && ctxKind <= 2 {
